@@ -4,6 +4,9 @@
    - each label form of the enumeration yields a well placed span ([form_ok]) from the facts the
      parser theorems give about the events;
    - [analysis_labels_ok]: every site of the enumeration, on the events of the pull parser;
+   - [label_table_in_sites], [label_sites_in_table]: the rows of the classification table (one per
+     entry of the regenerated inventory Gen/LabelSites.v) reach exactly the sites of the enumeration;
+     [inventory_labels_ok]: the placement theorem read from a row of the table;
    - [note_label_refuted_before_fix]: the form used before 17e6a01 is refuted. *)
 From CL Require Import Base.StrLemmas Model.Lexer Model.Parser Proofs.LexerProofs Proofs.ParserSeg
   Proofs.ParserTotal Proofs.ParserSpans Model.AnalysisLabels.
@@ -187,8 +190,11 @@ Section Forms.
       + apply in_or_app. right. left. reflexivity.
     - intros (t & key & p & H1 & H2 & ->). apply yaml_text_index_ok; [exact H1|apply Hfact; exact H1|].
       apply (yaml_key_position_ok _ _ _ H2).
-    - intros (t & i & H1 & H2 & ->). apply yaml_text_index_ok; [exact H1|apply Hfact; exact H1|].
-      apply Hy. exact H2.
+    - intros (t & H1 & H2). destruct (yaml_err_index (text_str t)) as [i|] eqn:Ei; subst sp.
+      + (* the error has a location: the text's offset plus an index that is a boundary of the text *)
+        apply yaml_text_index_ok; [exact H1|apply Hfact; exact H1|]. apply Hy. exact Ei.
+      + (* no location (45a4888): the span of the front matter text, a span of the event *)
+        apply (ev_span_ok _ _ H1). left. reflexivity.
     - congruence.
   Qed.
 
@@ -204,6 +210,55 @@ Section Forms.
   Qed.
 End Forms.
 
+(* ------------------------------------------------------------------ the classification table *)
+(* a boolean equality on sites, to decide the two inclusions by computation *)
+Definition part_tag (p : part) : N :=
+  match p with
+  | PComp => 0 | PMods => 1 | PInter => 2 | PNote => 3 | PQuantity => 4 | PUnit => 5 | PValue => 6
+  | PMetaKey => 7 | PMetaValue => 8 | PText => 9
+  end.
+
+Definition form_tag (f : form) : N :=
+  match f with
+  | FPart p => 10 + part_tag p | FPosEnd p => 20 + part_tag p
+  | FJoinKV => 1 | FYamlKey => 2 | FYamlErr => 3 | FNoteOld => 4
+  end.
+
+Lemma form_tag_inj a b : form_tag a = form_tag b -> a = b.
+Proof.
+  destruct a as [p|p| | | |], b as [q|q| | | |]; try destruct p; try destruct q; cbn; intro H;
+    first [reflexivity | discriminate H].
+Qed.
+
+Definition site_eqb (a b : N * form) : bool := (fst a =? fst b) && (form_tag (snd a) =? form_tag (snd b)).
+
+Lemma site_eqb_eq a b : site_eqb a b = true -> a = b.
+Proof.
+  destruct a as [i f], b as [j g]. unfold site_eqb; cbn [fst snd]. rewrite andb_true_iff, !N.eqb_eq.
+  intros [-> H]. apply form_tag_inj in H. subst g. reflexivity.
+Qed.
+
+Lemma incl_by_eqb (l m : list (N * form)) :
+  forallb (fun c => existsb (site_eqb c) m) l = true -> incl l m.
+Proof.
+  intros H c Hc. rewrite forallb_forall in H. specialize (H c Hc). apply existsb_exists in H as (d & Hd & E).
+  apply site_eqb_eq in E. subst d. exact Hd.
+Qed.
+
+(* every site a row of [label_table] names is a site of [label_sites] ... *)
+Lemma label_table_in_sites : forall r c, In r label_table -> In c (snd r) -> In c label_sites.
+Proof.
+  assert (H : incl (flat_map snd label_table) label_sites) by (apply incl_by_eqb; vm_compute; reflexivity).
+  intros r c Hr Hc. apply H. apply in_flat_map. exists r. split; assumption.
+Qed.
+
+(* ... and every site of [label_sites] is reached by a row *)
+Lemma label_sites_in_table : forall c, In c label_sites -> exists r, In r label_table /\ In c (snd r).
+Proof.
+  assert (H : incl label_sites (flat_map snd label_table)) by (apply incl_by_eqb; vm_compute; reflexivity).
+  intros c Hc. apply H in Hc. apply in_flat_map in Hc. exact Hc.
+Qed.
+
 (* ------------------------------------------------------------------ on the events of the pull parser *)
 Theorem analysis_labels_ok (U : N -> ucls) (cfg : pcfg) (s : str) (evs : list pevent) yaml_err_index :
   p_strict_escape cfg = false -> p_note_label_old cfg = false ->
@@ -214,6 +269,18 @@ Proof.
   intros H1 H2 E. apply sites_ok.
   - exact (event_spans_all_ok U cfg s evs H1 H2 E).
   - exact (fragments_faithful U cfg s evs H1 E).
+Qed.
+
+(* the same, read from the inventory: row (fn, expression, sites) of [label_table], site (id, f) of the row *)
+Theorem inventory_labels_ok (U : N -> ucls) (cfg : pcfg) (s : str) (evs : list pevent) yaml_err_index :
+  p_strict_escape cfg = false -> p_note_label_old cfg = false ->
+  events U cfg s = Done evs ->
+  Forall ev_fact evs -> yaml_index_ok yaml_err_index ->
+  forall fn expr cls id f sp, In (fn, expr, cls) label_table -> In (id, f) cls ->
+    produces yaml_err_index evs f sp -> span_ok s sp.
+Proof.
+  intros H1 H2 E Hf Hy fn expr cls id f sp Hr Hc. apply (analysis_labels_ok U cfg s evs yaml_err_index H1 H2 E Hf Hy id).
+  exact (label_table_in_sites _ _ Hr Hc).
 Qed.
 
 (* ------------------------------------------------------------------ before 17e6a01 *)
